@@ -290,7 +290,7 @@ def rule_r7(facts, col, rule_id="C02.R7"):
         wlocks = set()
         for bb, fld, st in c01.ring_writes(body):
             if fld == "wpos":
-                wlocks |= _lock_bbs(body.place_expr(st["dst"]))
+                wlocks |= _lock_bbs(c01.rw_dst_expr(body, st))
         if not wlocks:
             continue
         for b2, bb, t, kind in tag_map_calls(facts):
